@@ -2,7 +2,7 @@ import beacon
 import verif
 
 MANIFEST = dict(
-    text="Coq theorems, for all list sizes and committee counts: compute_committee's slicing covers the index range exactly once, sizes are floor(n/count) or one more, each committee is the shuffled slice, and (given C06: the per-index shuffle is a permutation) the committees of an epoch are a Permutation of the active set. The executable Spec (get_beacon_committee, compute_proposer_index, get_next_sync_committee_indices, transliterated from the pyspec) is run, extracted to OCaml, against zrnt's from-scratch EpochsContext on every state recorded by the chain generator (all committees of prev/cur/next epoch, all proposers of the epoch, both sync committees); a difference is reported with the state as replay. Partial: proposer/sync sampling equality is by correspondence (the sampling loop terminates only statistically), the partition theorem takes the C06 bijection as hypothesis.",
+    text="Coq theorems, for all list sizes and committee counts: compute_committee's slicing covers the index range exactly once, sizes are floor(n/count) or one more, each committee is the shuffled slice, and — unconditionally, C06's bijection transported to the Spec's own shuffle by Beacon/Proofs/ShuffleBridge.v — the committees of an epoch are a Permutation of the active set (every active validator in exactly one committee) for every hash, seed, round count and size. The executable Spec (get_beacon_committee, compute_proposer_index, get_next_sync_committee_indices, transliterated from the pyspec) is run, extracted to OCaml, against zrnt's from-scratch EpochsContext on every state recorded by the chain generator (all committees of prev/cur/next epoch, all proposers of the epoch, both sync committees); a difference is reported with the state as replay. Partial: equality of zrnt's committee/proposer/sync-committee computation with the Spec's is by correspondence (no separate Impl model of NewShufflingEpoch/ComputeProposers yet; the sampling loops terminate only statistically).",
     note="Trusted: Coq kernel; extraction + OCaml driver; pyspec transliteration; BLS aggregate-pubkey oracle table; chain generator. No axioms.",
     technique="Coq proof (slicing partition, Permutation) + extracted-Spec vs Go correspondence on generated chains",
     design="4/C07")
@@ -26,5 +26,5 @@ def make_check():
         "C07", select, judge,
         rule="every `epc` record of every generated chain (after each block, epoch boundary, upgrade, validator-adding deposit): zrnt's NewEpochsContext(state) vs the Spec evaluated on the same state bytes: active sets and all committees of 3 epochs, proposers of all slots, current/next sync-committee indices. distinct = (chain, record); all are non-trivial (>= 8 validators, >= 1 committee per slot)",
         make_targets=["Properties/C07.vo", "Beacon/Run.vo"], trust=beacon.BEACON_TRUST,
-        model_files=["coq/Beacon/Spec/Helpers.v", "coq/Beacon/Run.v", "coq/Beacon/Proofs/CommitteeSlices.v", "coq/Beacon/Proofs/CommitteePartition.v", "coq/Properties/C07.v"],
+        model_files=["coq/Beacon/Spec/Helpers.v", "coq/Beacon/Run.v", "coq/Beacon/Proofs/CommitteeSlices.v", "coq/Beacon/Proofs/CommitteePartition.v", "coq/Beacon/Proofs/ShuffleBridge.v", "coq/Properties/C07.v"],
         notes="conditional: compute_proposer_index / sync sampling use fuel 40000 candidates; a state on which the spec loop does not terminate within that is out of domain.")
